@@ -79,6 +79,9 @@ def code_for_number_token(name, value, location):
     try:
         # Note: base 0 automatically handles prefixes like 0x.
         result = int(value, 0)
+        # Python refuses decimal numbers too long to be converted (``sys.get_int_max_str_digits()``). The same
+        # has to hold for the other bases because error messages show limits in decimal.
+        str(result)
     except ValueError:
         raise errors.InterfaceError(
             "numeric value for %s must be an integer number but is: %s" % (name, _compat.text_repr(value)), location
